@@ -6,7 +6,7 @@ generate_facts = extract_facts.generate
 
 ID = "C02"
 LEAN_MODULES = ["Econf.Props.C02", "Econf.Props.Tie"]
-THEOREMS = ["Econf.C02_parse_render", "Econf.C02_parse_render_plain", "Econf.C02_entry_item", "Econf.C02_no_final_newline", "Econf.parseLine_noeol", "Econf.parse_item", "Econf.splitLines_render", "Econf.Struct.tie_macros"]
+THEOREMS = ["Econf.C02_parse_render", "Econf.C02_parse_render_plain", "Econf.C02_in_domain", "Econf.C02_entry_item", "Econf.C02_keyonly_item", "Econf.C02_no_final_newline", "Econf.parseLine_noeol", "Econf.parse_item", "Econf.splitLines_render", "Econf.Struct.tie_macros"]
 RULE = ("grammar-directed documents of DESIGN.md 5.1 (0..60 items, every spelling choice drawn at random) x 7 delimiter sets x 3 comment "
         "sets x final newline present/absent; non-trivial = at least one entry or section; distinct by file content and sets")
 PATH = b"/etc/app/doc.conf"
@@ -20,11 +20,12 @@ def make(rng, sid, nitems, hist, single_line=False):
     items = g.document(nitems)
     fnl = rng.random() < 0.85
     content = gen_doc.render(items, fnl)
-    meta = {"items": items, "delim": delim, "comment": comment, "cls": g.cls, "content": content}
+    meta = {"items": items, "delim": delim, "comment": comment, "cls": g.cls, "content": content, "fnl": fnl}
     return docs.doc_scenario(sid, content, delim, comment, meta, PATH)
 
 
 GEN_HIST = {}
+DOCS = []      # (scenario id, docwf input lines) of the documents generated in this run
 
 
 def scenarios(tier, rng):
@@ -32,8 +33,45 @@ def scenarios(tier, rng):
     out = []
     for i in range(n):
         size = rng.choice([3, 8, 8, 20, 60])
-        out.append(make(rng, "d%d" % i, size, GEN_HIST))
+        sc = make(rng, "d%d" % i, size, GEN_HIST)
+        out.append(sc)
+        m = sc.meta
+        if m["items"]:
+            DOCS.append((sc.id, gen_doc.docwf_lines(m["items"], m["delim"], m["comment"], m["content"], m["fnl"])))
     return out
+
+
+def direct_checks(res, harness, tier, rng):
+    """the tie between the C02 theorem and what the correspondence run samples: every generated document is handed, as a
+    structured list of items, to the model driver (`econf_model --docwf`), which decides with the kernel-checked decidability
+    instances whether it lies in the domain of `C02_parse_render` (`docInDomain`), whether the Lean `render` of the items is
+    byte for byte the file given to the implementation, and whether the parser model returns `expDoc`"""
+    import subprocess
+    from vlib import build
+    from checks import common
+    docs, DOCS[:] = list(DOCS), []
+    if not docs:
+        return
+    text = "\n".join("\n".join(ls) for _, ls in docs) + "\n"
+    p = subprocess.run([build.model_exe(), "--docwf"], input=text.encode(), stdout=subprocess.PIPE, stderr=subprocess.PIPE)
+    outs = [l for l in p.stdout.decode().split("\n") if l.startswith("docwf ")]
+    if len(outs) != len(docs):
+        path = common.write_replay(res, "docwf", None, "econf_model --docwf answered %d of %d documents (exit %d)\n%s" % (len(outs), len(docs), p.returncode, p.stderr.decode()[-500:]))
+        res.violations.append((path, "domain check of the generated documents did not run", True))
+        return
+    for (sid, ls), o in zip(docs, outs):
+        f = dict(x.split("=") for x in o.split()[1:])
+        res.hist["doc_in_theorem_domain" if f["in"] == "1" else "doc_outside_theorem_domain"] = res.hist.get("doc_in_theorem_domain" if f["in"] == "1" else "doc_outside_theorem_domain", 0) + 1
+        bad = None
+        if f["render"] != "1":
+            bad = "the Lean rendering of the generated items is not the file given to the implementation"
+        elif f["in"] == "1" and f["parse"] != "1":
+            bad = "document inside the domain of C02_parse_render on which the parser model does not return expDoc (contradicts the theorem: the driver and the library disagree about a definition)"
+        elif f["parse"] != "1":
+            bad = "generated conventional document outside the theorem's domain (item %s) on which the parser model differs from the expected state" % f["bad"]
+        if bad and len([v for v in res.violations]) < 5:
+            path = common.write_replay(res, "docwf-" + sid, None, bad + "\n" + o + "\n" + "\n".join(ls))
+            res.violations.append((path, bad, False))
 
 
 def oracle(s, lines):
